@@ -78,6 +78,14 @@ def run(res):
         res.violation("string literal body %r: the parser reads %s, the Coq model of the scanner says %s" % (
             dec(c.split("\t")[-1]), dec(i[1:]) if i.startswith("V") else i, dec(m[1:]) if m.startswith("V") else m),
             {"literal_body_with_closing_quote": dec(c.split("\t")[-1])})
+    # the expression / value parser = Model/ExprParse.v (what every printed binding is read back with)
+    import valparse
+    rv = valparse.run(res.tier, res.seed, "C14")
+    res.notes["value_parser_cases"] = rv["n"]
+    for (c, i, m) in rv["mismatches"][:3]:
+        d = valparse.describe(c)
+        res.violation("the parser reads the %s value %r as %s, the Coq model of the expression / value parser says %s" % (
+            d["context"], d["source"][:200], i[:300], m[:300]), dict(d, impl=i, model=m))
     p = harness_run(["strfy", res.tier, res.seed], timeout=3000)
     jobs_in = [json.loads(l) for l in p.stdout.decode("utf8").split("\n") if l]
     found = 0
@@ -143,7 +151,7 @@ def run(res):
         res.known.append("KF-C14-1: %s (%d mangled prints with wx:for excluded in this run)" % (kf["KF-C14-1"]["what"], known_for))
     if not ok:
         res.violation(what, {"obligation": "Properties/C14.v"}, no_input=(found == 0))
-    res.cov["evaluations"] = 2 * len(jobs_in) + n_cmp
+    res.cov["evaluations"] = 2 * len(jobs_in) + n_cmp + rv["n"]
     res.cov["distinct_nontrivial"] = nontrivial
     res.cov["rule"] = ("generated well-formed templates, 1/3 of them mutated (ill-formed but recoverable), 10 hand-written shapes; "
                        "plain and mangled printing; second-round diagnostics, fixpoint, and create/update/create trees of original vs "
